@@ -27,18 +27,18 @@ for e in known:
 def sh(c): return subprocess.run(c, shell=True, capture_output=True, text=True).stdout.strip()
 repo_log = "\n".join(l for l in sh("git -C /repo log --format='%h %s' | head -40").splitlines() if " fix:" in l or " verif:" in l)
 
-SPEC = {"C01": "Ops.tla, Decls.tla, Lits.tla", "C02": "Ops.tla, Decls.tla, Lits.tla, Flow.tla, Headers.tla", "C03": "Ops.tla, Decls.tla, Lits.tla, Select.tla", "C04": "Ops.tla, Decls.tla",
+SPEC = {"C01": "Ops.tla, Decls.tla, Lits.tla, StmtRules.tla", "C02": "Ops.tla, Decls.tla, Lits.tla, StmtRules.tla, Flow.tla, Headers.tla", "C03": "Ops.tla, Decls.tla, Lits.tla, Select.tla", "C04": "Ops.tla, Decls.tla",
         "C05": "GoTypes.tla, Grid.tla", "C06": "Overload.tla", "C07": "Infer.tla", "C08": "Select.tla", "C09": "Imports.tla", "C10": "Flow.tla",
         "C11": "Lower.tla", "C12": "Print.tla, Comments.tla, Flow.tla, Headers.tla", "C13": "TypeSyntax.tla (GoTypes.tla)", "C14": "Zero.tla (GoTypes.tla)",
         "C15": "Determinism.tla", "C16": "Builder.tla, Blocks.tla, BlockTrace.tla", "C17": "Total.tla", "C18": "Shared.tla", "C19": "TypeMap.tla, TypeMapTrace.tla", "C20": "Cache.tla"}
-DRIVER = {"C01": "c01_04.go, expr.go, decls.go, lits.go", "C02": "c01_04.go, c02_flow.go, c02_headers.go, astcanon.go", "C03": "c01_04.go, c08.go", "C04": "c01_04.go",
+DRIVER = {"C01": "c01_04.go, expr.go, decls.go, lits.go, stmtrules.go", "C02": "c01_04.go, c02_flow.go, c02_headers.go, astcanon.go", "C03": "c01_04.go, c08.go", "C04": "c01_04.go",
           "C05": "c05.go, gotypes.go", "C06": "c06.go", "C07": "c07.go", "C08": "c08.go", "C09": "c09.go", "C10": "c10.go", "C11": "c11.go, c11_exec.go",
           "C12": "c12.go, c12_comments.go", "C13": "c13.go", "C14": "c14.go", "C15": "c15.go", "C16": "c16.go, c16_trace.go", "C17": "c17.go", "C18": "c18.go",
           "C19": "c19.go", "C20": "c20.go, cmd/stubgo/stubgo.c"}
 
 # hand-written remarks per property: decisions, false alarms corrected, what TLC itself checks
 REMARK = {
-"C01": """TLC evaluates laws on Ops.tla itself (commutativity of the verdict for commutative operators, constness closed under folding, shift laws); the harness validates *every* point against `types.Eval` on an independent one-line rendering (S = T, else exit 2) before the builder's outcome is judged. Two engines: expressions (`opsRun`) and statements (`declsRun`: `:=`, `=`, `var`, `return` with single values, multi-value calls, comma-ok forms, redeclaration, const blocks with iota, implicit repetition and a trailing stand-alone `const S = iota`). A third engine (`litRun`, Lits.tla) covers composite literals, index and slice expressions and indirection; its first run agreed with go/types after two corrections of the model (a 3-index slice without middle index is not syntax; duplicate keys of a map with interface key type are compared after default typing) and exposed five more root causes of unsound acceptance (KF-C01-11..15), one of spurious rejection (KF-C02-5) and one of type reporting (KF-C03-4). The four properties C01-C04 are four *verdicts* of the same points (`opsClassify` / `declsClassify`): unsound acceptance, spurious rejection, reported type, constness/value.""",
+"C01": """TLC evaluates laws on Ops.tla itself (commutativity of the verdict for commutative operators, constness closed under folding, shift laws); the harness validates *every* point against `types.Eval` on an independent one-line rendering (S = T, else exit 2) before the builder's outcome is judged. Two engines: expressions (`opsRun`) and statements (`declsRun`: `:=`, `=`, `var`, `return` with single values, multi-value calls, comma-ok forms, redeclaration, const blocks with iota, implicit repetition and a trailing stand-alone `const S = iota`). A third engine (`litRun`, Lits.tla) covers composite literals, index and slice expressions and indirection; its first run agreed with go/types after two corrections of the model (a 3-index slice without middle index is not syntax; duplicate keys of a map with interface key type are compared after default typing) and exposed five more root causes of unsound acceptance (KF-C01-11..15), one of spurious rejection (KF-C02-5) and one of type reporting (KF-C03-4). A fourth engine (`srRun`, StmtRules.tla) covers the typing rules of statement heads; four corrections of the model came from go/types (boolean constants are not checked for duplicate cases; a tagless switch compares `true == x`, so interface cases are fine; an untyped boolean case is comparable with an interface tag) and it exposed KF-C01-16..18 (duplicate cases, unchecked send statements, range over a send-only channel). The four properties C01-C04 are four *verdicts* of the same points (`opsClassify` / `declsClassify`): unsound acceptance, spurious rejection, reported type, constness/value.""",
 "C02": """Besides the C01 engine's "valid Go rejected" verdict, C02 owns the statement level. (1) **Flow bodies**: every *valid* function body enumerated from Flow.tla (validity = no missing return, no unused / duplicate label; cross-checked with go/types) is built in one package per batch, the package is written, and each emitted function must have the same *typed canonical tree* (astcanon.go: positions, comments, redundant parentheses, `else { if }` vs `else if`, grouped field names, empty result lists and import names removed; every identifier annotated with universe / package / member / n-th local as go/types resolves it) as an independent rendering of the same operations. Flow.tla gained the action `FGoto` (forward goto: `NewLabel` + `Goto` now, `Label` later in an enclosing block, tracked by block paths of frame ids) for this. (2) **Headers.tla** transcribes the Go specification's composite-literal ambiguity rule (`Exposed`, with the precedence refinement that a unary or binary operand of a primary expression is necessarily parenthesised) and places every expression tree of a grammar (8 bases incl. a literal of an instantiated generic type, chains of selectors / method calls, 17 finals) in 14 statement contexts; `go/parser` on the text *without* protective parentheses validates `Ambiguous` on every point. The builder must accept each placement and emit text that parses back to the same tree.""",
 "C03": """Same points as C01; additionally the lookups of Select.tla are replayed with `selectForC03`: the result type of `MemberVal` / method expressions and the object passed to `Recorder.Member` must be the member Go selects.""",
 "C04": """Same points; compared are constness and the exact constant value (go/constant `ExactString`), also for constant declarations (`Package.Types.Scope()` entries vs go/types on the written package).""",
@@ -357,11 +357,24 @@ w("""
 
 ## 11. Cost
 
-Quick tiers: see §6 (sum about 12 minutes on this machine, C16 alone 4). Thorough tiers measured:
-C12 1.7*10^6 cases in 21 min; C02 84 543 cases in 4.3 min (before the Headers extension); C07 79 334
-points in 2.4 min; C06 adds triples of signatures; C10 / C16 / C19 / C20 use the larger configurations
-listed in their drivers. Thorough configurations were fitted to measured state counts (a configuration
-that does not finish is an infrastructure failure, never a pass).
+Quick tiers: see §6 (sum about 9 minutes on this machine with 16 cores; C16 takes a minute because it also runs
+a subset of the repository's tests with the trace hook). All quick tiers were run with VERIF_SEED = 1, 2 and 3 on
+the unchanged tree: all pass. Thorough tiers, measured on the final tree (seconds; cases):
+
+| C01 | C02 | C03 | C04 | C05 | C06 | C07 | C08 | C09 | C10 |
+|---|---|---|---|---|---|---|---|---|---|
+| 38 s, 7.5e4 | 309 s, 1.6e5 | 40 s, 7.5e4 | 54 s, 4.3e4 | 20 s, 3.8e4 | 137 s, 2.4e6 | 306 s, 1.0e5 | 186 s, 1.4e7 | 1671 s, 2.4e6 | 658 s, 1.6e6 |
+
+| C11 | C12 | C13 | C14 | C15 | C16 | C17 | C18 | C19 | C20 |
+|---|---|---|---|---|---|---|---|---|---|
+| 6 s, 8.0e2 | 765 s, 1.7e6 | 15 s, 1.6e4 | 2 s, 3.1e2 | 479 s, 4.1e3 | 752 s, 4.0e6 | 53 s, 9.2e4 | 159 s, 4.3e4 | 44 s, 9.8e5 | 893 s, 7.9e4 |
+
+About 1.8 hours in total. C09 thorough needs about 14 GB of memory (delta-debugging of every failing history).
+Thorough configurations were fitted to measured state counts (a configuration that does not finish is an
+infrastructure failure, never a pass): the first attempt at C02 thorough contained a Flow configuration with more
+than 6.6*10^7 states and timed out after 40 minutes; C12's depth-3 tree set exceeded TLC's set-size limit. C11 and
+C14 are exhaustive over their catalogues in both tiers. For C16 the thorough tier validates the block trace of the
+repository's whole test suite (1280 events of 235 builders).
 
 ## 12. Hooks in /repo
 
